@@ -83,6 +83,15 @@ KeyLearned(ev) ==
      /\ T[ev.kprev].rel = ev.rel            \* (another library's graph is compared by C02_Released)
      /\ ObservedSuccess(T[ev.kprev])
 KeyFor(ev) == IF KeyLearned(ev) THEN T[ev.kprev].out ELSE ev.out
+\* C07, outcome form: WHETHER a request is hashed or refused is part of its result.  oprev (computed by the driver,
+\* verified here) is the first identical request to the same library; when neither call was hindered by something
+\* outside the arguments (a too-small size, an injected or real allocation failure), both end the same way.
+Unhindered(ev) == /\ ~AnyFault(ev) /\ ~ReallocFailed(ev) /\ ev.pnull = 0 /\ ev.snull = 0
+                  /\ (ev.e = "crypt_rn" => SzClass(ev.size) \in {"sizeof", "big"})
+                  /\ ~(~ObservedSuccess(ev) /\ ev.errno = ENOMEM)
+A_SameOutcome(ev) == /\ "oprev" \in DOMAIN ev /\ ev.oprev > 0 /\ ev.oprev < l /\ IsHashEv(T[ev.oprev].e)
+                     /\ SameRequest(T[ev.oprev], ev) /\ T[ev.oprev].rel = ev.rel /\ Unhindered(ev) /\ Unhindered(T[ev.oprev])
+C07_SameOutcome(ev) == A_SameOutcome(ev) => (ObservedSuccess(ev) = ObservedSuccess(T[ev.oprev]))
 
 \* resolve the model's outcome into the record the predicates need
 Resolve(ev) ==
@@ -213,7 +222,8 @@ C_Handle(ev) ==
 C_Balanced(ev) == ev.livemap = 0 /\ ev.badfree = 0 /\ ev.liveheap = ev.hlive
 
 AntNames == {"FailClosed", "FailClosedStaleErrno", "ShortSizes", "Wiped", "Result", "ResultNonzeroErrno", "UninitDependence", "AsIfAlone",
-             "Grow", "Handle", "RoundTrip", "Distinct", "FalseAcceptProbe", "Literal", "Released", "Balanced", "Shape", "KdfParams", "NoFalseAccept"}
+             "Grow", "Handle", "RoundTrip", "Distinct", "FalseAcceptProbe", "Literal", "Released", "Balanced", "Shape", "KdfParams", "NoFalseAccept",
+             "SameOutcome"}
 \* (the argument is forced with TLCEval at the call site: a lazy argument would be re-evaluated for every n)
 AddAnts(f, a) == [n \in AntNames |-> f[n] + (IF n \in a THEN 1 ELSE 0)]
 V(p, n) == [l |-> l, p |-> p, n |-> n]
@@ -250,6 +260,7 @@ JudgeHash(ev) ==
               \cup (IF C_Literal(ev) THEN {} ELSE {V("C10", "Literal")})
               \cup (IF C18_CanHash(ev) THEN {} ELSE {V("C18", "CanHash")})
               \cup (IF C02_Released(ev) THEN {} ELSE {V("C02", "Released")})
+              \cup (IF C07_SameOutcome(ev) THEN {} ELSE {V("C07", "SameOutcome")})
               \* (also without a fault, whenever the call made mapping requests: what it mapped is unmapped when it returns)
               \cup (IF (AnyFault(ev) \/ \E i \in 1..Len(ev.led) : ev.led[i].op \in {"H", "M"}) /\ ~C_Balanced(ev)
                     THEN {V("C15", "Balanced")} ELSE {})
@@ -274,6 +285,7 @@ JudgeHash(ev) ==
               \cup (IF AnyFault(ev) THEN {"Balanced"} ELSE {})
               \cup (IF ObservedSuccess(ev) THEN {"Shape"} ELSE {})
               \cup (IF A_KdfParams(ev, oc) THEN {"KdfParams"} ELSE {})
+              \cup (IF A_SameOutcome(ev) THEN {"SameOutcome"} ELSE {})
   IN [viol |-> IF ev.rel = 1 THEN {} ELSE coreV \cup conc, ants |-> IF ev.rel = 1 THEN {} ELSE ants,
       \* (events of the reference library are data, not judged: it has the defects this tree repaired)
       div |-> IF AnyFault(ev) \/ ev.rel = 1 THEN {}
